@@ -977,9 +977,14 @@ def pick_scenarios(behs, seed, quick):
         if fails:
             at = b.index(fails[0])
             later = any(e["e"] == "Start" for e in b[at + 1:])
+        heldy = False
+        if fails:
+            # the failure is recorded while the independent leaf y is still held (started or not, but not ended)
+            endy = [i for i, e in enumerate(b) if e["e"] == "EndOk" and (e["k"], e["n"]) == ("b", "y")]
+            heldy = bool(endy) and b.index(fails[0]) < endy[0]
         return {"dag": b[0]["def"]["name"], "jobs": b[0]["jobs"], "kg": b[0]["kg"],
                 "fail": fails[0]["k"] if fails else None, "failn": fails[0]["n"] if fails else None,
-                "later": later, "len": len(b)}
+                "later": later, "heldy": heldy, "len": len(b)}
     D6 = ("chain", "diamond", "twopath", "wide", "sharedco", "tworoots")
     # every DAG at full parallelism without failure (schedule independence, bounds, once-only)
     classes = [dict(dag=d, jobs=(3,), fail=(None,)) for d in D6]
@@ -990,11 +995,18 @@ def pick_scenarios(behs, seed, quick):
     # a failing step that is reached on two paths, sequential and parallel (same failure must be seen, not re-run)
     classes += [dict(dag="twopath", jobs=(1,), kg=(True,), fail=("b", "p"), failn=("l",)),
                 dict(dag="diamond", jobs=(1, 2), kg=(True,), fail=("b", "p"), failn=("l",))]
+    # a failing package with two dependants at different depths, keep-going, fewer slots than work: the shared
+    # package is made to fail while the other slot is held by y, i.e. while the expansion of the deep path is
+    # still queued for a job slot -- the deep dependant asks for the package strictly AFTER its failure
+    classes += [dict(dag="deepshare", jobs=(2,), kg=(True,), fail=("b",), failn=("x",), heldy=True)]
     # failure without keep-going
     classes += [dict(dag=d, jobs=j, kg=(False,), fail=("c", "b", "p")) for d, j in (("chain", (1, 2, 3)), ("diamond", (2, 3)), ("twopath", (2, 3)))]
     # fewer slots than startable steps
     classes += [dict(dag="diamond", jobs=(1,), fail=(None,)), dict(dag="wide", jobs=(2,), fail=(None,)),
                 dict(dag="twopath", jobs=(2,), fail=(None,)), dict(dag="tworoots", jobs=(2,), fail=(None,))]
+    onlydag = os.environ.get("VF_C06_ONLYDAG")        # development knob
+    if onlydag:
+        classes = [c for c in classes if c["dag"] == onlydag]
     chosen, used = [], set()
     for c in classes:
         for i, b in enumerate(behs):
@@ -1006,6 +1018,8 @@ def pick_scenarios(behs, seed, quick):
             if "failn" in c and f["failn"] not in c["failn"]:
                 continue
             if c.get("later") and not f["later"]:
+                continue
+            if c.get("heldy") and not f["heldy"]:
                 continue
             if f["fail"] is None and b[-1].get("rc") != 0:
                 continue
@@ -1145,6 +1159,8 @@ def main():
     nsim = 1500 if quick else 12000
     go("sched_gen", "BobSched", "BobSched_gen.cfg", workers=1, simulate="num=%d" % (1500 if quick else 4000), depth=80,
        seed=a.seed + 1, deadlock=False)
+    go("sched_gen_deep", "BobSched", "BobSched_gen_deep.cfg", workers=1, simulate="num=%d" % (2500 if quick else 6000), depth=80,
+       seed=a.seed + 1, deadlock=False)
     go("sem_gen", "JobSem", "JobSem_gen.cfg", deadlock=False)
     go("sem_sim", "JobSem", "JobSem_gen_sim.cfg", workers=1, simulate="num=%d" % nsim, depth=60, seed=a.seed + 1, deadlock=False)
     go("sem_rec_sim", "JobSem", "JobSem_gen_rec.cfg", workers=1, simulate="num=%d" % (300 if quick else 2000), depth=40,
@@ -1177,6 +1193,8 @@ def main():
         if "sched_gen" in T:
             gen = T["sched_gen"].result()
             behs = [b for b in gen.printed if b and b[-1]["e"] == "Finish"]
+            # the large two-depth DAG is rare in the uniform sample: dedicated generation run
+            behs += [b for b in T["sched_gen_deep"].result().printed if b and b[-1]["e"] == "Finish"]
             rep.extra["sched_behaviours_generated"] = len(behs)
             scen = pick_scenarios(behs, a.seed, quick)
             dags = {}
